@@ -3,11 +3,12 @@
    lies in [mn, mx], with at least k of their two ends at an admissible terminus (protein terminus, enzymatic
    site, site behind a removable initiator methionine) and spanning at most mc enzymatic sites
    (k = 2 full, 1 semi-specific, 0 non-specific: no terminus or budget condition).
-   Non-specific digestion is proved for ALL sequences; full and semi-specific digestion are proved by an exhaustive
-   kernel-checked sweep whose bound is part of the statement (every sequence of length 1..5 over the five residue
-   classes the algorithm can distinguish, five enzyme shapes, five windows, budgets 0..2, both methionine
-   settings) - the unbounded statement for them is tied by the correspondence check only. *)
-From PGF Require Import Base.Prelude Base.PyStr Model.Digest Proofs.DigestProofs Proofs.DigestSweepAll Gen.Enzymes_gen.
+   Non-specific and FULL digestion are proved for ALL sequences, enzymes, windows, budgets and methionine settings;
+   semi-specific digestion is proved by an exhaustive kernel-checked sweep whose bound is part of the statement (every
+   sequence of length 1..5 over the five residue classes the algorithm can distinguish, five enzyme shapes, five
+   windows, budgets 0..2, both methionine settings) - the unbounded statement for it is tied by the correspondence
+   check only. *)
+From PGF Require Import Base.Prelude Base.PyStr Model.Digest Proofs.DigestProofs Proofs.DigestFull Proofs.DigestSweepAll Gen.Enzymes_gen.
 
 (* a cleavage site is exactly a position after a 'pre' residue not followed by a 'not_post' residue, or before a 'post' residue *)
 Theorem C08_site_iff_rule : forall e s b,
@@ -34,6 +35,15 @@ Theorem C08_non_specific_digest_spec : forall e s mn mx mc met p,
   (In p (non_specific_digest s mn mx) <-> In p (spec_digest e 0 s mn mx mc met)).
 Proof. exact non_specific_digest_spec. Qed.
 Print Assumptions C08_non_specific_digest_spec.
+
+(* full digestion, every non-empty sequence, every enzyme, window, missed-cleavage budget and methionine setting:
+   loop invariant "the open starts are the last mc+1 boundaries" (with the initiator-methionine site: all of them while at
+   most mc+2 boundaries were seen) + counting of the enzymatic sites between two boundaries *)
+Theorem C08_full_digest_spec : forall e s mn mx mc met p,
+  1 <= length s -> 1 <= mn ->
+  (In p (full_digest e s mn mx mc met) <-> In p (spec_digest e 2 s mn mx mc met)).
+Proof. exact full_digest_spec. Qed.
+Print Assumptions C08_full_digest_spec.
 
 (* full and semi-specific digestion, exhaustively within the stated bound *)
 Theorem C08_full_and_semi_digest_spec_bounded : forall d, d <> DNone ->
